@@ -1,12 +1,12 @@
 (** C08 — interruption stops new work within a fixed bound and loses nothing started.
     Proved here for the call APIs (fold / try_fold / for_each / try_for_each, mut and control
-    variants, every limit and order). "Loses nothing started / the call returns": C04, C09.
+    variants, every limit and order) and for stream_interruptible. "Loses nothing started / the call returns": C04, C09.
     Partial: "with NonInterruptible or IgnoreInterruptions a signal never changes which functions
     run" is proved at the level of the wrapper (it never ends the stream and never produces an
     Interrupted item: [IntCredit.wrapper_transparent]) and validated by the correspondence, not as an
     equivalence of whole runs. *)
 From FG Require Import Dag Builder Sched DagFacts EdgeFacts RankFacts BuilderFacts TopoFacts AugFacts BuildFacts
-     SchedInv SchedInv2 SafetyFacts CfgFacts SI_Queuer SI_Step SI2_Step LiveRun IntCredit IntRun.
+     SchedInv SchedInv2 SafetyFacts CfgFacts SI_Queuer SI_Step SI2_Step LiveRun IntCredit IntRun IntStream.
 
 Definition interrupt_bound (st : strat) (incl pending : bool) : nat :=
   match st with
@@ -66,6 +66,36 @@ Proof.
   destruct st as [| | |[|k]]; destruct incl; simpl in *; lia.
 Qed.
 Print Assumptions C08_signal_before_first_poll.
+
+(** stream_interruptible: after the signal the stream yields at most the bound's number of further
+    FnRefs ([processed] is the list of functions yielded), whatever the consumer does (polls, FnRef
+    drops in any order, more signals, dropping the stream). *)
+Theorem C08_stream_yielded_after_signal : forall G rev st drain evs1 evs2,
+  st <> SNonInt -> st <> SIgnore ->
+  let sc := mk_scfg G rev st true drain in
+  let s1 := srun sc evs1 in
+  let s2 := srun sc (evs1 ++ SInt :: evs2) in
+  length (processed s2) <= length (processed s1) + interrupt_bound st true (w_hp (w s1)).
+Proof.
+  intros G rev st drain evs1 evs2 N1 N2 sc s1 s2.
+  assert (Hs2 : s2 = fold_left (fun s e => fst (sstep sc s e)) (SInt :: evs2) s1).
+  { unfold s2, s1, srun. rewrite fold_left_app. reflexivity. }
+  pose proof (yielded_after_signal sc s1 evs2 eq_refl N1 N2 (swrap_ok_run sc evs1)) as H.
+  rewrite <- Hs2 in H. unfold interrupt_bound. exact H.
+Qed.
+Print Assumptions C08_stream_yielded_after_signal.
+
+(** Once the wrapper has reported the interruption, every later poll_next yields None. *)
+Theorem C08_stream_ends_after_interrupted : forall G rev st drain evs,
+  let sc := mk_scfg G rev st true drain in
+  s_alive (srun sc evs) = true -> w_ian (w (srun sc evs)) = true ->
+  snd (sstep sc (srun sc evs) SNext) = WNone /  w_ian (w (fst (sstep sc (srun sc evs) SNext))) = true.
+Proof.
+  intros G rev st drain evs sc Ha Hn. split.
+  - apply sstep_after_interrupted; [reflexivity | exact Ha | exact Hn].
+  - rewrite (sstep_after_interrupted_state sc _ eq_refl Ha Hn). exact Hn.
+Qed.
+Print Assumptions C08_stream_ends_after_interrupted.
 
 (** NonInterruptible / IgnoreInterruptions: the wrapper never ends the stream by itself and never
     produces an Interrupted item. *)
